@@ -18,13 +18,14 @@ var c16Ops = []string{
 	"cut stream A>B", "cut A>B after next event reaches B", "cut A>B after next ack reaches A", "lose next Hello reply + cut", "link A>B down", "link A>B up",
 	"B loses A (fail+rejoin)", "C joins", "A:c3 subscribes t3", "hold acks B->A", "release acks B->A",
 	"A sees B fail (B keeps its session for A)", "A sees B join again (new peer object and session id)",
+	"B sees A fail (A keeps its peer object and retries)", "B sees A join again",
 }
 
 // c16MainN: the main tree uses the first c16MainN operations; the last two only occur in
 // the tree about a node that loses and re-creates its peer object.
 const c16MainN = 16
 
-var c16PeerLossAlpha = []int{0, 1, 2, 4, 13, 16, 17, 11, 5}
+var c16PeerLossAlpha = []int{0, 1, 2, 4, 13, 16, 17, 11, 5, 18, 19}
 
 type c16State struct {
 	nw       *federation.VerifNet
@@ -36,6 +37,7 @@ type c16State struct {
 	down     bool
 	held     bool
 	aLostB   bool
+	bLostA   bool
 	nmsg     int
 }
 
@@ -124,7 +126,7 @@ func c16Apply(st *c16State, op int) bool {
 		st.held = false
 		st.nw.HoldAcks["A>B"] = false
 	case 16:
-		if st.aLostB || st.down || st.held {
+		if st.aLostB || st.bLostA || st.down || st.held {
 			return false
 		}
 		st.aLostB = true
@@ -136,6 +138,21 @@ func c16Apply(st *c16State, op int) bool {
 		st.aLostB = false
 		st.lostSess = true
 		st.a.Join("B")
+	case 18:
+		// B drops its session for A (which ends A's stream); A's handshakes are refused until
+		// B sees A join again
+		if st.bLostA || st.aLostB || st.down || st.held {
+			return false
+		}
+		st.bLostA = true
+		st.b.Fail("A")
+	case 19:
+		if !st.bLostA {
+			return false
+		}
+		st.bLostA = false
+		st.lostSess = true
+		st.b.Join("A")
 	}
 	return true
 }
@@ -144,7 +161,7 @@ func c16Apply(st *c16State, op int) bool {
 // subscription set, every event has been acknowledged, and messages were applied
 // exactly once in order while the peer session lasted.
 func c16Check(st *c16State, bad func(rule, class, want, got string)) {
-	if st.down || st.held || st.aLostB {
+	if st.down || st.held || st.aLostB || st.bLostA {
 		return
 	}
 	local := strings.Join(st.a.LocalTopics(), ",")
@@ -281,7 +298,7 @@ func c16Concurrent(obs *c16Obs, cuts int) func() {
 
 func runC16(c *explore.Ctx) {
 	c.Level = "model_checking"
-	c.Rule = "E2 on the real federation code in-package (eventQueue, peer.initStream, stream read/send loops, Hello, sessionMgr, EventStream server loop, eventStreamHandler, fedSubStore, localSubStore, nodeJoin/nodeFail, hook wrappers) with serf and gRPC replaced by a fault-injectable in-memory transport under the cooperative scheduler: every sequence of 14 operations (emit subscribe / unsubscribe / shared subscribe / session end / message; cut now, cut between delivery and ack, cut after ack, lost Hello reply, link down/up, peer loses the session, third node joins) up to the depth, plus directed prefixes, plus a tree over a 9-operation alphabet in which the node itself sees the peer fail and join again (new peer object and session id while the peer still holds the old session; subscriptions change in between); after every operation at quiescence: the peer's view equals the node's local subscriptions, the queue is fully acknowledged, messages were applied exactly once and in order. E3: concurrent emitters and a fault thread under every schedule with <=k deviations."
+	c.Rule = "E2 on the real federation code in-package (eventQueue, peer.initStream, stream read/send loops, Hello, sessionMgr, EventStream server loop, eventStreamHandler, fedSubStore, localSubStore, nodeJoin/nodeFail, hook wrappers) with serf and gRPC replaced by a fault-injectable in-memory transport under the cooperative scheduler: every sequence of 14 operations (emit subscribe / unsubscribe / shared subscribe / session end / message; cut now, cut between delivery and ack, cut after ack, lost Hello reply, link down/up, peer loses the session, third node joins) up to the depth, plus directed prefixes, plus a tree over an 11-operation alphabet in which the node itself sees the peer fail and join again (new peer object and session id while the peer still holds the old session), or the peer sees the node fail and join again as two separate steps (the node's handshakes are refused in between); subscriptions change in between; after every operation at quiescence: the peer's view equals the node's local subscriptions, the queue is fully acknowledged, messages were applied exactly once and in order. E3: concurrent emitters and a fault thread under every schedule with <=k deviations."
 	c.Trusted = []string{"fake transport: whole messages are delivered or an error is returned (gRPC's observable granularity); serf replaced by direct nodeJoin/nodeFail calls; the reconnect loop's back-off timers are not modelled", "vsched"}
 	c.Assumptions = []string{"after the peer lost the session (fail + rejoin) only the resynchronised subscription view and 'no message applied twice' are required"}
 	if rc := replayCase(c); rc != nil {
